@@ -196,7 +196,9 @@ class PathResult:
         self.tb = None
 
 
-def run_path(harness, params, prefix, witness, seed, engine_opts=None):
+def run_path(harness, params, prefix, witness, seed, engine_opts=None, path_budget_s=120.0):
+    from .timebox import timebox
+
     T.reset()
     eng = Engine(witness=witness, prefix=prefix, seed=seed, **(engine_opts or {}))
     ctx = Ctx(eng=eng, params=params)
@@ -206,8 +208,9 @@ def run_path(harness, params, prefix, witness, seed, engine_opts=None):
     with warnings.catch_warnings():
         warnings.simplefilter("ignore")
         try:
-            with eng:
-                harness(ctx)
+            with timebox(path_budget_s, PathAbort(f"witness path exceeded the trace budget of {path_budget_s}s")):
+                with eng:
+                    harness(ctx)
         except PathAbort as e:
             res.status, res.reason = "abort", e.reason
         except UnsupportedOp as e:
@@ -245,7 +248,7 @@ def replay(harness, params, model):
 
 # ------------------------------------------------------------------ exploring all paths of one cell
 def explore(harness, params, seed=0, timeout_s=10.0, max_paths=64, engine_opts=None, norm_first=False,
-            on_exception="inconclusive"):
+            on_exception="inconclusive", path_budget_s=60.0):
     """returns a cell report (dict, JSON-able)"""
     t_start = time.time()
     queue = [((), {})]
@@ -260,7 +263,7 @@ def explore(harness, params, seed=0, timeout_s=10.0, max_paths=64, engine_opts=N
             report["inconclusive"].append(f"path budget {max_paths} exhausted with {len(queue)} pending")
             break
         prefix, witness = queue.pop()
-        pr = run_path(harness, params, prefix, witness, seed, engine_opts)
+        pr = run_path(harness, params, prefix, witness, seed, engine_opts, path_budget_s=path_budget_s)
         eng = pr.engine
         report["paths"] += 1
         report["trace_s"] += pr.seconds
@@ -285,6 +288,8 @@ def explore(harness, params, seed=0, timeout_s=10.0, max_paths=64, engine_opts=N
                 report["inconclusive"].append("uncaught " + pr.reason)
         if pr.status == "abort":
             report["notes"].setdefault("aborts", []).append(pr.reason)
+            if pr.reason.startswith("witness"):
+                report["inconclusive"].append("path not completed: " + pr.reason)
         tainted = bool(eng.tainted)
         if tainted:
             report["tainted"] += 1
@@ -370,7 +375,9 @@ def explore(harness, params, seed=0, timeout_s=10.0, max_paths=64, engine_opts=N
 def confirm(harness, params, model, label):
     """replay a model on the real code; True iff some check (preferably the same label) fails there"""
     ctx, err = replay(harness, params, model)
-    if ctx.replay_failures:
-        same = [f for f in ctx.replay_failures if f["label"] == label or f["label"].startswith(label.split(":")[0])]
-        return True, {"failures": (same or ctx.replay_failures)[:3], "error": err}
-    return False, {"failures": [], "error": err, "checked": ctx.replay_checked}
+    base = label.split(":")[0]
+    same = [f for f in ctx.replay_failures if f["label"] == label or f["label"].split(":")[0] == base]
+    if same:
+        return True, {"failures": same[:3], "error": err}
+    return False, {"failures": [], "other_failures": [f["label"] for f in ctx.replay_failures][:5], "error": err,
+                   "checked": ctx.replay_checked}
